@@ -124,7 +124,8 @@ class CommentsData(Data):
                     f"Keys {list(value.keys())} provided."
                 )
 
-        self._values = values
+        # keep our own comments: the list handed in may belong to another entity (copy)
+        self._values = None if values is None else [dict(value) for value in values]
         self.workspace.update_attribute(self, "values")
 
 
